@@ -262,8 +262,67 @@ def run_structures(case, part):
             check_value({"b": a, "a": b}, part, "structure", "structure", full=False)
 
 
+class _Unsupported(object):
+    pass
+
+
+def seq_menu():
+    """(name, value, refused?) - values the canonicalizer must refuse part-way through, next to ordinary ones of every kind"""
+    bad = [("nan-top", math.nan), ("nan-in-list-tail", [1, 2, math.nan]), ("inf-in-member", {"a": 1, "b": math.inf}), ("nan-deep", {"a": [1, {"b": [True, math.nan]}]}),
+           ("unsupported-type-in-list", [1, "x", _Unsupported()]), ("unsupported-type-in-member", {"a": "x", "b": _Unsupported()}), ("nan-single", [math.nan])]
+    good = [("int", 1), ("float", 1.5e-7), ("string", "a\u20ac\n"), ("null", None), ("true", True), ("empty-list", []), ("empty-object", {}), ("list", [1, "a", None]),
+            ("object", {"b": 1, "a": [1.0, {"c": "d"}]}), ("astral-keys", {"\U00010000": 0, "\ue000": 1})]
+    return [(n, v, True) for n, v in bad] + [(n, v, False) for n, v in good]
+
+
+def run_sequences(case, part):
+    """All call sequences of the given depth over the menu x both output forms: an earlier call (in particular one refused half-way) must leave nothing behind."""
+    import itertools
+    from stix2.canonicalization import Canonicalize as C
+    menu = seq_menu()
+    ops = [(n, v, r, fn, u) for (n, v, r) in menu for fn in ("canonicalize", "serialize") for u in (False, True)]
+    ops = [o for o in ops if o[0] == case["first"]] if case.get("first") else ops
+    allops = [(n, v, r, fn, u) for (n, v, r) in menu for fn in ("canonicalize", "serialize") for u in (False, True)]
+    expect = {}
+    for n, v, r in menu:
+        if not r:
+            expect[n, "canonicalize"] = J.jcs(v)
+            expect[n, "serialize"] = J.jcs(v, sort=False)       # same number/string forms, member order as inserted
+    depth = case.get("depth", 2)
+    for first in ops:
+        for rest in itertools.product(allops, repeat=depth - 1):
+            seq = (first,) + rest
+            if not any(o[2] for o in seq[:-1]) and depth > 2:
+                pass
+            part.evaluations += 1
+            part.transitions += len(seq)
+            part.state(("seq",) + tuple((o[0], o[3], o[4]) for o in seq), nontrivial=any(o[2] for o in seq[:-1]))
+            for i, (n, v, r, fn, u) in enumerate(seq):
+                try:
+                    out = ("ok", getattr(C, fn)(v, utf8=u))
+                except Exception as e:
+                    out = (type(e).__name__, None)
+                if r:
+                    ok = out[0] != "ok"
+                    want = "refused"
+                else:
+                    want = expect[n, fn].encode("utf-8") if u else expect[n, fn]
+                    ok = out == ("ok", want)
+                if not ok:
+                    part.outcome("sequence:DIFFERS")
+                    part.violation("C16/history-dependent/%s-after-%s" % ("refusal" if r else "output", "refused-call" if any(o[2] for o in seq[:i]) else "call"),
+                                   "the result of a canonicalization depends on the calls made before it",
+                                   {"kind": "sequences", "depth": depth, "first": first[0], "sequence": [[o[0], o[3], o[4]] for o in seq], "step": i},
+                                   repr(want)[:200], [out[0], repr(out[1])[:200]], None)
+                    break
+            else:
+                part.outcome("sequence:same")
+
+
 def run_case(case, part):
     k = case["kind"]
+    if k == "sequences":
+        return run_sequences(case, part)
     if k in ("exponents",):
         run_exponents(case, part)
     elif k == "pow10":
@@ -286,6 +345,8 @@ def replay(case, part):
     k = case["kind"]
     if k in ("exponents", "pow10", "ints", "strings", "keysets", "structures", "nonfinite"):
         return run_case(case, part)
+    if k == "sequences":
+        return run_case({"kind": "sequences", "depth": case.get("depth", 2), "first": case.get("first")}, part)
     v = dec(case["value"])
     # recompute the feature the explorer used so that the same key is produced
     feat = None
@@ -325,10 +386,13 @@ def run(run):
     ns = 32
     for s in range(ns):
         cases.append({"kind": "structures", "shard": s, "nshards": ns})
+    for n, v, r in seq_menu():
+        cases.append({"kind": "sequences", "depth": 3 if th else 2, "first": n})
     run.mode = "DEV"
     run.rule = ("enumeration of doubles (every exponent x %d mantissa patterns x sign; +-2 ulp around every power of ten; all d.dd x 10^k), integer boundaries, "
                 "strings/keys over the code-point alphabet, every insertion order of <=4 keys out of 8, all JSON values of depth <=3 with <=2 children; "
-                "states = distinct canonical texts produced" % (len(MANTISSAS) + (176 if th else 0)))
+                "every call sequence of depth %d over %d values (7 refused half-way) x {canonicalize, serialize (unsorted form)} x {text, utf8} against the history-free reference; "
+                "states = distinct canonical texts produced" % (len(MANTISSAS) + (176 if th else 0), 3 if th else 2, len(seq_menu())))
     run.bound = {"exponents": "0..2046 (all)", "mantissa_patterns": len(MANTISSAS) + EXTRA_MANTISSAS[th], "pow10": "1e-324..1e308, +-2 ulp",
                  "keys": KEYS, "max_keys": 4, "structure_depth": 3, "children": 2, "leaves": [repr(x) for x in LEAVES]}
     run.assumptions.append("oracle: mc/ref/jcs.py (RFC 8785 Appendix B vectors pass); shortest round-trip digits taken from CPython repr(float) on both sides")
@@ -341,3 +405,4 @@ def run(run):
     run.require(o.get("match:keyset", 0) >= 2081, "every insertion order of <=4 of 8 keys executed")
     run.require(o.get("nonfinite-refused", 0) == 16, "NaN/inf refusals observed")
     run.require(o.get("match:structure", 0) > 40000, "depth-3 structures executed")
+    run.require(o.get("sequence:same", 0) >= (len(seq_menu()) * 4) ** 2 and not o.get("sequence:DIFFERS"), "call sequences executed")
